@@ -29,11 +29,13 @@ class Restorer:
             self.write_fs.mkdirs(parent)
 
         destination = trashed_file.original_location
-        if overwrite and os.path.lexists(destination) and (
+        if overwrite and os.path.lexists(trashed_file.original_file) and \
+                os.path.lexists(destination) and (
                 os.path.islink(destination) or not os.path.isdir(destination)):
             # replace an existing non-directory (shutil.move would move the
             # entry *into* a symlinked directory, and cannot put a directory
-            # or a file of another volume over an existing file)
+            # or a file of another volume over an existing file); never when
+            # there is nothing to put in its place
             self.write_fs.remove_file(destination)
 
         self.write_fs.move(trashed_file.original_file, trashed_file.original_location)
